@@ -96,7 +96,7 @@ def jobs_C16(tier, scale):
 
 
 def jobs_C06(tier, scale):
-    mix = dict(add=40, add1=8, recip=4, rm=12, rmk=6, setl=10, setm=10, setw=10, rmloops=5, rmvtx=7, clear=4, resize=6)
+    mix = dict(add=40, add1=8, recip=4, rm=12, rmk=6, setl=10, setm=10, setw=10, rmloops=5, rmvtx=7, clear=4, resize=6, xcopy=6)
     c = dict(classes=_classes(["DS", "US", "DM", "UM", "DW", "UW", "DL", "UL"]), mix=_mix(mix))
     cb = dict(classes=_classes(["DS", "US", "DM", "UM", "DW", "UW", "DL", "UL"], ["int", "string"]), mix=_mix(dict(mix, fill=25)), bign_pct="100")
     return [dict(engine="pbt", executor="eq", config="san", gen="eq", cfg=c, cases=_n(tier, 16000, 400000, scale), shards=8 if tier == "quick" else 16,
@@ -151,10 +151,10 @@ def graph_job(prop, executor, classes, tier, scale, quick, thorough, label, conf
 
 def jobs_C09(tier, scale):
     cl = _classes(ALL8)
-    hmix = dict(add=40, recip=5, rm=10, setl=15, rmvtx=4, rmloops=2, clear=2, resize=4, xrev=10, xconv=8)
-    jobs = [hist_job("C09", _classes(["DS", "US", "DL", "UL"], ["int", "string", "struct"]), hmix, tier, scale, 4000, 100000,
-                     "histories with reversals and conversions between the mutations (a conversion computed earlier must not influence a later one)"),
-            graph_job("C09", "conv", cl, tier, scale, 12000, 300000, "generated graphs (loops, reciprocal pairs with different labels, repeated pairs, isolated vertices)", nmax=9, pads=1),
+    hmix = dict(add=40, add1=4, recip=5, rm=10, rmk=3, setl=15, setm=8, setw=8, rmvtx=4, rmloops=2, clear=2, resize=4, xrev=10, xconv=8, xcopy=12)
+    jobs = [hist_job("C09", _classes(ALL8, ["int", "string", "struct"]), hmix, tier, scale, 6000, 150000,
+                     "histories with reversals, conversions, copy / self-assignment / move round trips and rebuilds through the container constructors between the mutations"),
+            graph_job("C09", "conv", cl, tier, scale, 12000, 300000, "generated graphs (loops, reciprocal pairs with different labels, repeated pairs, isolated vertices; values also set through the setters)", nmax=9, pads=1, sets=8),
             graph_job("C09", "conv", cl, tier, scale, 40, 800, "graphs with 66-100 vertices and vertices of degree above 64", big_pct=100, max_size=30),
             graph_job("C09", "conv", cl, tier, scale, 8, 160, "graphs with 150-200 vertices and 6000-12000 edges", ring_pct=100, max_size=20, floor=8),
             enum_job("conv", "graphs", dict(prop="C09", classes=_classes(["DS", "DL", "DM", "DW"], ["int", "struct"]), dmin=0, dmax=2 if tier == "quick" else 3, orders=2, pads="0:0;1:1"), tier,
@@ -196,11 +196,11 @@ def jobs_C12(tier, scale):
     q = tier == "quick"
     cl = _classes(["DW", "UW"])
     jobs = [graph_job("C12", "dij", cl, tier, scale, 4000, 100000, "generated graphs n<=12, integer weights 0..16 (exact); 2.4% of the cases repeat a search after 2^8-1 or 2^16-1 other searches", nmax=12, xmax=17,
-                      extra="wmode int", max_size=60, wrap_permille=24),
+                      extra="wmode int", max_size=60, wrap_permille=24, sets=12),
             graph_job("C12", "dij", cl, tier, scale, 2000, 60000, "generated graphs, weights k/8 (exact)", nmax=10, xmax=4096, extra="wmode frac", max_size=60),
             graph_job("C12", "dij", cl, tier, scale, 1500, 40000, "generated graphs, weights k*2^-60 (exact, all below machine epsilon)", nmax=10, xmax=17, extra="wmode tiny", max_size=60),
             graph_job("C12", "dij", cl, tier, scale, 1000, 30000, "generated graphs, weights k*2^40 (exact)", nmax=10, xmax=17, extra="wmode huge", max_size=60),
-            graph_job("C12", "dij", cl, tier, scale, 2000, 60000, "generated graphs, weights k/7 (rounded, tolerance 2n*2^-52*max(1,ref))", nmax=10, xmax=600, extra="wmode rounded", max_size=60),
+            graph_job("C12", "dij", cl, tier, scale, 2000, 60000, "generated graphs, weights k/7 (rounded, tolerance 2n*2^-52*max(1,ref)); weights also set through setEdgeWeight", nmax=10, xmax=600, extra="wmode rounded", max_size=60, sets=12),
             graph_job("C12", "dij", cl, tier, scale, 800, 20000, "each case in a fresh process: the same edge list searched as directed and as undirected weighted graph in a generated order",
                       nmax=8, xmax=17, extra="wmode int", max_size=60, fresh=1),
             enum_job("dij", "w4", dict(prop="C12", classes="DW:none", dmin=0, dmax=2, orders=2, extra="wmode abs012"), tier, "directed n<=2 x weights {absent,0,1,2}, all sources"),
@@ -221,7 +221,7 @@ def jobs_C19(tier, scale):
             fam("dij", _classes(["DW", "UW"]), 300, 6000, "hub improved m times with fan-out L, non-dyadic weights (stale queue entries must relax nothing)", families="fanin"),
             graph_job("C19", "dij", _classes(["DW", "UW"]), tier, scale, 800, 20000, "random weighted graphs, weights k/7 (not exactly representable)", nmax=30, xmax=40, extra="wmode rounded", max_size=100),
             graph_job("C19", "bfs", _classes(["DS", "US"]), tier, scale, 1500, 40000, "random graphs n<=40; pair searches before every counted search; 2.4% of the cases count after 2^8-1 or 2^16-1 other searches", nmax=40, max_size=100, wrap_permille=24),
-            graph_job("C19", "dij", _classes(["DW", "UW"]), tier, scale, 1500, 40000, "random weighted graphs n<=30, weights 0..4 (ties and zero-weight cycles)", nmax=30, xmax=5, extra="wmode int", max_size=100)] + (
+            graph_job("C19", "dij", _classes(["DW", "UW"]), tier, scale, 1500, 40000, "random weighted graphs n<=30, weights 0..4 (ties and zero-weight cycles), also set through setEdgeWeight", nmax=30, xmax=5, extra="wmode int", max_size=100, sets=10)] + (
         [] if tier == "quick" else [fuzz_job("dij", "wgraph", "C19", tier, scale, 0, 6000000, "guided search: libFuzzer climbs scans/(V+E+1) through __libfuzzer_extra_counters", max_len=300)])
 
 
@@ -229,7 +229,7 @@ def jobs_C13(tier, scale):
     cl = _classes(["DS", "US", "DL", "UL"], ["int", "double", "string", "struct"])
     tf = dict(engine="pbt", executor="text", config="san", gen="textfile", cfg=dict(classes="DS:none;US:none;DL:string;UL:string;DL:int;UL:int", modes="indexfile;namefile"),
               cases=_n(tier, 6000, 150000, scale), shards=8 if tier == "quick" else 16, max_size=80, label="files generated from the documented grammar vs an independent reference parser")
-    jobs = [graph_job("C13", "text", cl, tier, scale, 6000, 150000, "write/load round trips (labels none/int/double/string/struct, indices up to 14)", nmax=14, extra="mode roundtrip", max_size=60), tf,
+    jobs = [graph_job("C13", "text", cl, tier, scale, 6000, 150000, "write/load round trips (labels none/int/double/string/struct, indices up to 14; 8 % forced duplicate entries)", nmax=14, extra="mode roundtrip", max_size=60, forced=8), tf,
             graph_job("C13", "text", _classes(["DS", "US", "DL", "UL"], ["int", "string"]), tier, scale, 48, 960, "round trips of files with 6000-12000 lines (150-200 vertices, each joined to the next 40-60)",
                       ring_pct=100, extra="mode roundtrip", max_size=20)]
     # byte-level differential: whenever the reference parser classifies the input as well-formed, loader and reference must agree
@@ -278,17 +278,17 @@ def c17_streams(tier, scale):
         c = dict(prop=prop, classes=classes, mix=_mix(mix))
         c.update({k: str(v) for k, v in cfg.items()})
         st.append(dict(name=name, executor="hist", gen="hist", cfg=c, cases=cases, max_size=40))
-    hist("C01", "C01", _classes(["DS", "DL"], ["int", "string", "struct"]), dict(add=45, recip=12, rm=20, rmloops=5, rmvtx=6, clear=4, resize=8), n(1200, 20000))
-    hist("C02", "C02", _classes(["US", "UL"], ["int", "string", "struct"]), dict(add=50, rm=22, rmloops=6, rmvtx=9, clear=4, resize=8), n(1200, 20000))
-    hist("C03", "C03", _classes(["DL", "UL"], L6), dict(add=38, setl=22, rm=12, rmloops=6, rmvtx=8, clear=5, resize=4, recip=5), n(1200, 20000))
-    hist("C04", "C04", _classes(["DM", "UM"]), dict(add1=15, add=25, recip1=3, recip=3, rm=10, rmk=12, setm=15, rmloops=5, rmvtx=6, clear=3, resize=4), n(1200, 20000))
-    hist("C05", "C05", _classes(["DW", "UW"]), dict(add=35, setw=25, rm=12, rmloops=6, rmvtx=8, clear=4, resize=5), n(1200, 20000), mode="exact")
+    hist("C01", "C01", _classes(["DS", "DL"], ["int", "string", "struct"]), dict(add=45, recip=12, rm=20, rmloops=5, rmvtx=6, clear=4, resize=8, xcopy=5), n(1200, 20000))
+    hist("C02", "C02", _classes(["US", "UL"], ["int", "string", "struct"]), dict(add=50, rm=22, rmloops=6, rmvtx=9, clear=4, resize=8, xcopy=5), n(1200, 20000))
+    hist("C03", "C03", _classes(["DL", "UL"], L6), dict(add=38, setl=22, rm=12, rmloops=6, rmvtx=8, clear=5, resize=4, recip=5, xcopy=5), n(1200, 20000))
+    hist("C04", "C04", _classes(["DM", "UM"]), dict(add1=15, add=25, recip1=3, recip=3, rm=10, rmk=12, setm=15, rmloops=5, rmvtx=6, clear=3, resize=4, xcopy=5), n(1200, 20000))
+    hist("C05", "C05", _classes(["DW", "UW"]), dict(add=35, setw=25, rm=12, rmloops=6, rmvtx=8, clear=4, resize=5, xcopy=5), n(1200, 20000), mode="exact")
     hist("C16", "C16", _classes(["DS", "US", "DL", "UL", "DW", "UW"], ["int", "string"]), dict(add=55, rm=15, dedup=15, resize=5), n(1200, 20000), force=50, pairvalues=1)
     hist("C16m", "C16", _classes(["DM", "UM"]), dict(add=85, dedup=8, resize=5), n(600, 10000), force=100, pairvalues=1, final="dedup")
     # any valid call sequence: forced duplicates followed by every mutator, where no property fixes the outcome; nothing is compared with a model,
     # the sanitizers and the agreement of the observations across builds are the oracle
     hist("anyseq", "C17", _classes(ALL8, ["int", "string"]),
-         dict(add=40, add1=6, recip=4, rm=12, rmk=6, setl=8, setm=8, setw=8, rmloops=4, rmvtx=6, clear=2, resize=4, dedup=4, churn=1), n(2400, 40000), force=35, safety_only=1)
+         dict(add=40, add1=6, recip=4, rm=12, rmk=6, setl=8, setm=8, setw=8, rmloops=4, rmvtx=6, clear=2, resize=4, dedup=4, churn=1, xcopy=4), n(2400, 40000), force=35, safety_only=1)
     st.append(dict(name="C06", executor="eq", gen="eq", cfg=jobs_C06(tier, scale)[0]["cfg"], cases=n(1200, 20000), max_size=35))
     st.append(dict(name="C11", executor="bfs", gen="graph", cfg=dict(prop="C11", classes=_classes(["DS", "US", "DL", "UL"], ["int"]), nmax="9"), cases=n(800, 15000), max_size=50))
     st.append(dict(name="C12", executor="dij", gen="graph", cfg=dict(prop="C12", classes=_classes(["DW", "UW"]), nmax="12", xmax="17", extra="wmode int"), cases=n(800, 15000), max_size=50))
